@@ -149,3 +149,22 @@ def in_loop(node, stop):
 
 def contains(outer, inner):
     return any(n is inner for n in ast.walk(outer))
+
+
+def clone(node):
+    """structural copy of an AST subtree: copies the syntax fields and positions only, keeps a shallow reference to the
+    owning module, and drops the analysis annotations (_parent/_func/_class) - unlike copy.deepcopy, which would follow
+    them into the whole program"""
+    if isinstance(node, list):
+        return [clone(x) for x in node]
+    if not isinstance(node, ast.AST):
+        return node
+    new = type(node)()
+    for fld, val in ast.iter_fields(node):
+        setattr(new, fld, clone(val))
+    for a in ("lineno", "col_offset", "end_lineno", "end_col_offset"):
+        if hasattr(node, a):
+            setattr(new, a, getattr(node, a))
+    if hasattr(node, "_module"):
+        new._module = node._module
+    return new
